@@ -271,7 +271,10 @@ func (*Pipefs) Read(req *SrvReq) {
 		}
 		switch {
 		case tc.Offset > uint64(len(fid.dirents)):
-			count = 0
+			// past the end of the listing (or never listed from offset 0): nothing to return
+			SetRreadCount(rc, 0)
+			req.Respond()
+			return
 		case len(fid.dirents[tc.Offset:]) > int(tc.Count):
 			count = int(tc.Count)
 		default:
